@@ -46,6 +46,15 @@ def shape_deterministic(x):
     return None
 
 
+def cycle5(stride):
+    """DFAs on 5 states: a is the cycle i -> i+1 mod 5, b any partial function, any final set (see c02): large enough
+    for Hopcroft's worklist to split a pending class"""
+    from .c02 import cycle_dfa_cases, dfa_case
+    for k, c in enumerate(cycle_dfa_cases(5, True)):
+        if k % stride == 0:
+            yield dfa_case(c)
+
+
 class C01(Prop):
     ID = "C01"
     RULE = ("every automaton of FA(n,k,t) modulo renaming, built as epsilon-NFA and, when valid, as NFA and DFA "
@@ -64,6 +73,7 @@ class C01(Prop):
         if tier == "quick":
             return [Layer("FA(2,2,<=12)", lambda: G.fa_cases(2, 2, 0, 12), rep=G.is_rep),
                     Layer("FA(3,2,<=3)", lambda: G.fa_cases(3, 2, 0, 3), rep=G.is_rep),
+                    Layer("cycle DFAs n=5 (partial b, every 21st)", lambda: cycle5(21), policies=["natural@str", "1@str"]),
                     Layer("FA(3,2,<=2)/adversarial-names", lambda: G.fa_cases(3, 2, 0, 2), rep=None, policies=adv),
                     Layer("FA(2,2,<=3)/adversarial-names", lambda: G.fa_cases(2, 2, 0, 3), rep=None, policies=adv)]
         few = ["natural@int", "natural@str", "1@int", "2@str", "s%d@int" % seed]
@@ -72,6 +82,7 @@ class C01(Prop):
                 Layer("FA(3,2,4)", lambda: G.fa_cases(3, 2, 4, 4), rep=G.is_rep, policies=few),
                 Layer("FA(3,1,<=6)", lambda: G.fa_cases(3, 1, 0, 6), rep=G.is_rep),
                 Layer("FA(4,1,<=4)", lambda: G.fa_cases(4, 1, 0, 4), rep=G.is_rep, policies=few),
+                Layer("cycle DFAs n=5 (partial b)", lambda: cycle5(1), policies=["natural@int", "1@str", "2@int"]),
                 Layer("FA(3,2,<=3)/adversarial-names", lambda: G.fa_cases(3, 2, 0, 3), rep=None, policies=adv),
                 Layer("FA(2,2,<=12)/adversarial-names", lambda: G.fa_cases(2, 2, 0, 12), rep=None, policies=adv)]
 
@@ -110,7 +121,7 @@ class C01(Prop):
         scheme = ctx.variant or "int"
         rnfa = O.ref_from_case(case, scheme)
         kind = O.case_kind(case)
-        builds = [("enfa", "add"), ("enfa", "ctor")]
+        builds = [("enfa", "add"), ("enfa", "ctor"), ("enfa", "ctor_tf")]
         if kind in ("nfa", "dfa"):
             builds.append(("nfa", "add"))
         if kind == "dfa":
@@ -137,7 +148,7 @@ class C01(Prop):
                         ctx.expect(r.value is want, "C01.accepts.epsilon_spelling", word=w, got=r.value, want=want)
             if via == "ctor":
                 continue
-            for op in self.OPS:
+            for op in (self.OPS if via == "add" else ["to_deterministic", "minimize"]):
                 r = ctx.call(getattr(a, op))
                 clause = "C01." + op
                 if not ctx.returns(r, clause, cls=tag):
